@@ -611,7 +611,14 @@ def _gen_list_op(r, root, path, m, attr, tys, sp, malformed, raw=True):
         if any(v is None for v in vs):
             return None
         return {'k': 'call', 'kind': 'rep-extend', 'm': 'extend', 'args': [{'t': 'list', 'items': vs, 'as': _batch_shape(r)}], **base_op}
-    if c < 0.89:
+    if c < 0.915:
+        if raw and r.random() < 0.7 and hasattr(w, 'drop_many'):
+            # the bulk delete: any iterable of indexes - negative ones, repeated ones, in any order; out of range = refused
+            k = r.choice([0, 1, 2, 2, 3])
+            idxs = [(_idx_choices(r, n) if malformed and r.random() < 0.4 else (r.randrange(-n, n) if n else 0)) for _ in range(k)]
+            if not n and not malformed:
+                idxs = []
+            return {'k': 'call', 'kind': 'rep-dropmany', 'm': 'drop_many', 'args': [{'t': 'lit', 'v': idxs}], **base_op}
         return {'k': 'call', 'kind': 'rep-clear', 'm': 'clear', 'args': [], **base_op}
     if c < 0.95 and n:
         i = r.randrange(n)
